@@ -702,7 +702,7 @@ func zzC13Like(exp, act any) (ok bool) {
 			return strings.Contains(s, "quic://")
 		}
 
-		return bcrypt.CompareHashAndPassword([]byte(s), []byte(e.pass)) == nil
+		return zzC13Verify(s, e.pass)
 	case []any:
 		a, isL := zzC13Norm(act).([]any)
 		if !isL || len(a) != len(e) {
@@ -731,6 +731,21 @@ func zzC13Like(exp, act any) (ok bool) {
 	default:
 		return zzC13Equal(exp, act)
 	}
+}
+
+// zzC13Verified caches bcrypt verifications (60 ms each).
+var zzC13Verified sync.Map
+
+func zzC13Verify(hash, pass string) (ok bool) {
+	key := hash + "\x00" + pass
+	if v, has := zzC13Verified.Load(key); has {
+		return v.(bool)
+	}
+
+	ok = bcrypt.CompareHashAndPassword([]byte(hash), []byte(pass)) == nil
+	zzC13Verified.Store(key, ok)
+
+	return ok
 }
 
 var zzC13SerialT = map[string]string{"dur": "str", "umode": "str", "strs": "list"}
@@ -856,7 +871,7 @@ func zzC13SameDoc(a, b []byte, in yobj) (diff string) {
 		for _, u := range us {
 			um, _ := u.(yobj)
 			h, _ := um["password"].(string)
-			if hasPass && strings.HasPrefix(h, "$2") && bcrypt.CompareHashAndPassword([]byte(h), []byte(pass)) == nil {
+			if hasPass && strings.HasPrefix(h, "$2") && zzC13Verify(h, pass) {
 				um["password"] = "verified:" + pass
 			}
 		}
